@@ -34,6 +34,9 @@ M = [
  ("C09", "trans-minus", "_modifiers.py", "return potential_func(r+trans_value)", "return potential_func(r-trans_value)"),
  ("C09", "product-as-plus", "_modifiers.py", 'mod = _modifier_from_func_reduce("product", product, potential_forms, potential_form_builder)', 'mod = _modifier_from_func_reduce("product", plus, potential_forms, potential_form_builder)'),
  ("C09", "default-range-ge", "config/_config_parser.py", 'self._default_range_start = MultiRangeDefinitionTuple(u">", 0.0)', 'self._default_range_start = MultiRangeDefinitionTuple(u">=", 0.0)'),
+ ("C12", "tabeam-unsorted-pairs", "_dlpoly_writeTABEAM.py", "for k in sorted(pairs):", "for k in pairs:"),
+ ("C12", "refdata-shared-dict", "referencedata/_reference_data.py", "species_dat = dict(self.extra_data[species])", "species_dat = self.extra_data[species]"),
+ ("C12", "revert-sorted-null-embed", "config/_eam_potential_builder.py", "for s in sorted(null_embed_species):", "for s in null_embed_species:"),
  ("C03", "setfl-nr-minus-1", "eam_tabulation.py", None, None),
 ]
 def main():
